@@ -610,6 +610,15 @@ def f_(ck: Check) -> None:
                 import re as _re
                 b0 = call_arg(c, 0, "petri_net")
                 bvals = [(d_, v_) for d_, v_ in fm.value_defs(b0.id, cn)] if isinstance(b0, ast.Name) else [(cn, b0)]
+                for _ in range(3):      # a base held in a second local (`base = parent_net` under `parent_net is not None`)
+                    nxt_ = []
+                    for d_, v_ in bvals:
+                        if isinstance(v_, ast.Name) and v_.id not in f.params():
+                            nxt_ += [(d2, v2) for d2, v2 in fm.value_defs(v_.id, d_)]
+                        else:
+                            nxt_.append((d_, v_))
+                    bvals = nxt_
+                bvals = [(d_, v_) for d_, v_ in bvals if not (v_ is not None and is_none(v_))]   # None is no base at all
                 for d_, v_ in bvals:
                     if v_ is None:
                         probs.append("the base net has an opaque origin")
